@@ -182,6 +182,16 @@ theorem store_frame (P : PHeap) (p q : Nat) (t u : Target) (v : Int)
       intro ⟨a, b⟩; apply h; rw [a, b]
     simp [Heap.write, this]
 
+theorem store_cells (P : PHeap) (p : Nat) (t : Target) (v : Int) (hp : targetOf P p = some t) :
+    ∀ o s, (o, s) ≠ (t.obj, t.slot) → (store P p v).heap.cell o s = P.heap.cell o s := by
+  intro o s h
+  have hs : store P p v = { P with heap := P.heap.write t.obj t.slot v } := by
+    unfold store; rw [hp]
+  have : ¬ (o = t.obj ∧ s = t.slot) := by
+    intro ⟨a, b⟩; apply h; rw [a, b]
+  rw [hs]
+  simp [Heap.write, this]
+
 /-- a direct assignment to the variable / field / element is observed through every pointer to it -/
 theorem assign_observed (P : PHeap) (q : Nat) (t : Target) (v : Int) (hq : targetOf P q = some t) :
     load (assignCell P t v) q = some v := by
